@@ -73,6 +73,12 @@ Theorem C04_sami_entity_lookup_exact : forall n v,
 Proof. exact sami_entity_lookup_exact. Qed.
 Print Assumptions C04_sami_entity_lookup_exact.
 
+(* the entry SAMIParser adds itself: &apos; is the apostrophe *)
+Theorem C04_sami_entity_apos :
+  assoc_str (lit "apos") GenText.sami_name2codepoint = Some 39 /\ ev_chars (EvEntity (lit "apos")) = Some [39].
+Proof. exact sami_entity_apos. Qed.
+Print Assumptions C04_sami_entity_apos.
+
 (* ---- DFXP / SAMI text nodes: wrapped text keeps all of its words ---- *)
 Theorem C04_text_node_keeps_words : forall s t, text_node true s = Some t -> words t = words s.
 Proof. exact text_node_keeps_words. Qed.
